@@ -2,19 +2,20 @@
 (* GENERATED from harness/kinds_C10.py (python harness/kinds_C10.py); the check refuses to run if they differ. *)
 EXTENDS Serialise
 
-Kinds == {"seq_old", "seq_new", "aln", "array_aln", "coll", "new_coll", "tree", "table", "dists", "dict_array", "indel_map", "feature_map", "annotation_db", "lf", "submodel", "codon_model", "moltype", "alphabet", "not_completed", "model_result", "generic_result"}
+Kinds == {"seq_old", "seq_new", "aln", "array_aln", "coll", "new_coll", "tree", "table", "dists", "dict_array", "indel_map", "feature_map", "aligned", "annotation_db", "lf", "submodel", "codon_model", "moltype", "alphabet", "not_completed", "model_result", "generic_result"}
 KindOpsDef == [k \in Kinds |-> CASE k = "seq_old" -> {"add_feature", "rc", "slice_mid", "slice_neg", "stride2", "to_rna"}
                                   [] k = "seq_new" -> {"add_feature", "rc", "slice_mid", "slice_neg", "stride2", "to_rna"}
-                                  [] k = "aln" -> {"omit_gap_pos", "rc", "slice_cols", "take_positions", "take_seqs", "to_rna"}
-                                  [] k = "array_aln" -> {"omit_gap_pos", "rc", "slice_cols", "take_positions", "take_seqs", "to_rna"}
+                                  [] k = "aln" -> {"modified_termini", "omit_gap_pos", "rc", "slice_cols", "take_positions", "take_seqs", "to_rna"}
+                                  [] k = "array_aln" -> {"modified_termini", "omit_gap_pos", "rc", "slice_cols", "take_positions", "take_seqs", "to_rna"}
                                   [] k = "coll" -> {"rc", "rename", "take_seqs", "to_rna"}
                                   [] k = "new_coll" -> {"rc", "rename", "take_seqs", "to_rna"}
                                   [] k = "tree" -> {"bifurcating", "rooted_at", "sorted", "sub_tree"}
                                   [] k = "table" -> {"filtered", "get_columns", "sorted", "transposed", "with_new_column"}
                                   [] k = "dists" -> {"drop", "take_dists"}
                                   [] k = "dict_array" -> {"to_normalized"}
-                                  [] k = "indel_map" -> {"reversed", "slice"}
+                                  [] k = "indel_map" -> {"reversed", "slice", "termini_unknown"}
                                   [] k = "feature_map" -> {"covered", "reversed", "slice"}
+                                  [] k = "aligned" -> {"rc", "slice", "termini_unknown"}
                                   [] k = "annotation_db" -> {"add", "subset", "union"}
                                   [] k = "lf" -> {"const", "mprobs", "optimise", "scope"}
                                   [] k = "submodel" -> {}
